@@ -324,6 +324,7 @@ def run(tier):
                      "a deny-list of resolved callees (clock, OS randomness, RandomState, env, threads, files, pointer-to-integer casts) with the confirmed instances frozen by (caller, callee) and "
                      "their values confined to the info line / to comparisons against SearchLimits fields; no iteration API on any hash container and an identity-hashed cache; a constant Zobrist seed and "
                      "source-free table initialisers; no mutable process-wide state except the cache; a fresh Info per search; the cache empty at start and cleared between bench positions; the cache "
-                     "never touched by the input thread and only owned values crossing the thread boundary. Not decided: codegen determinism, the three target_feature `unsafe` wrappers."),
+                     "never touched by the input thread and only owned values crossing the thread boundary; a search given no limits has none (SearchLimits::new / default leave every limit empty). "
+                     "Not decided: codegen determinism, the three target_feature `unsafe` wrappers."),
         assumptions=["std functions not on the deny-list are deterministic functions of their arguments", "rustc/LLVM codegen is deterministic; no undefined behaviour"],
         tier=tier)
